@@ -7,7 +7,7 @@
    PARTIAL: a panic inside the floating-point estimators themselves is outside the model (they are oracles; the
    hypotheses block_hyps name what their answers must satisfy, and the checks measure it on every case). *)
 From FV Require Import Generated Model.Base Model.Rice Model.Predict Model.Component Model.Flac Model.Encoder Model.Config
-  Proofs.Lossless Proofs.ConfigP Proofs.NoPanic Proofs.EncodeFrameE2E Proofs.DecodeStream Proofs.EncodeTotal.
+  Proofs.Lossless Proofs.ConfigP Proofs.NoPanic Proofs.EncodeFrameE2E Proofs.DecodeStream Proofs.EncodeTotal Proofs.BlockHyps.
 Local Open Scope N_scope.
 
 (* accepted if and only if every field at every nesting level is in its documented range; the
@@ -63,3 +63,22 @@ Theorem C07_verified_config_lossless :
       decode_stream bytes = Some (mkSinfo bs bs minf maxf rate channels bps (N.of_nat total) (md5 (md5_input bps samples)), samples).
 Proof. exact verified_config_lossless. Qed.
 Print Assumptions C07_verified_config_lossless.
+
+(* the same with the hypotheses reduced to the LPC estimator's answers (see C01_stream_end_to_end_lpc): a verified
+   configuration, an input inside the declared width - and, only when the LPC branch is on, verified and fitting
+   parameter sets from the estimator *)
+Theorem C07_verified_config_lossless_lpc :
+  forall (ent : N -> N -> N -> N) (qlpc : N -> N -> qparams) (md5 : list N -> list N)
+         experimental cfg rate channels bps bs samples (total : nat),
+    verify experimental cfg = true -> In bps [8; 12; 16; 20; 24] -> 1 <= rate < 2 ^ 20 -> 1 <= channels <= 8 ->
+    16 <= bs <= c_MAX_BLOCK_SIZE ->
+    length samples = (total * N.to_nat channels)%nat -> N.of_nat total < 2 ^ 36 ->
+    N.of_nat (length (chunks (N.to_nat (bs * channels)) samples)) <= 2 ^ 31 ->
+    samples_ok bps samples = true ->
+    length (md5 (md5_input bps samples)) = 16%nat -> Forall (fun x => x < 256) (md5 (md5_input bps samples)) ->
+    stream_lpc_hyps qlpc cfg channels bs samples ->
+    exists bytes minf maxf,
+      encode_stream_bytes ent qlpc md5 cfg rate channels bps bs samples = Ok bytes /\
+      decode_stream bytes = Some (mkSinfo bs bs minf maxf rate channels bps (N.of_nat total) (md5 (md5_input bps samples)), samples).
+Proof. exact verified_config_lossless_lpc. Qed.
+Print Assumptions C07_verified_config_lossless_lpc.
